@@ -67,7 +67,7 @@ PROPERTIES = {
         clause="indicator polynomials of And/Or/Not/True/False equal their boolean meaning on all rows; composite conditions recurse into every child; the three "
                "get_moment bodies share the guarded-assignment shape. NOT decided: Atom's Lagrange indicator, power reduction, closure, coefficients."),
     "C05": dict(
-        specs=[S("ENUM"), S("TYPER"), S("TYPERFIX"), S("SUPPORT"), S("SUPPORTKIND"), S("IMPLIED"), S("MARKLAST"), S("GUARD"), S("LRUMUT")],
+        specs=[S("ENUM"), S("TYPER"), S("TYPERFIX"), S("SUPPORT"), S("SUPPORTKIND"), S("IMPLIED"), S("MARKLAST"), S("GUARD"), S("LRUMUT"), S("QUANT", r"finite_fixed_point_typer|finite.py")],
         clause="discrete supports enumerate the values the moment/sampler sides use; intervals are refused; only non-failed numeric sets become types; the start state "
                "covers the whole initial block; defaults are included unless the condition is implied by the guard; implied-by-guard answers are sound. "
                "NOT decided: that the fixed point covers all reachable values."),
@@ -76,7 +76,7 @@ PROPERTIES = {
         clause="no truncation of a rational kernel on the way to exponent vectors; exponentials are abstracted only behind raising checks; the eliminated symbols are "
                "exactly the lex prefix that is filtered. NOT decided: that reported polynomials vanish on the sequences."),
     "C07": dict(
-        specs=[S("GROEBNER"), S("INVINPUTS", r"invariant_ideal"), S("RATLATTICE"), S("KAUERS"), S("ALIAS"), S("TRIVIAL"), S("DEADGUARD"), S("NORMDIM")],
+        specs=[S("GROEBNER"), S("INVINPUTS", r"invariant_ideal"), S("RATLATTICE"), S("KAUERS"), S("ALIAS"), S("TRIVIAL"), S("DEADGUARD"), S("NORMDIM"), S("QUANT", r"exponent_lattice")],
         clause="both groebner() calls compute elimination ideals (generator prefix == filtered symbols, lex order). NOT decided: completeness of the exponent lattice."),
     "C08": dict(
         specs=[S("A1-dist"), S("A2", r"program/distribution/"), S("SAMPLERS"), S("ENUM"), S("FLOAT", r"float_to_rational|distribution"), S("CFMGF"), S("DISTREWRITE"), S("SUPPORTKIND"), S("MOMENTS"), S("MGFDOMAIN"), S("STATE", r"program/distribution|classmutable|modstate"), S("LRU", r"program/distribution")],
@@ -95,7 +95,8 @@ PROPERTIES = {
         technique="path enumeration over the case analysis of DiffRecBuilder.get_recurrence with the dependence tests as boolean atoms, exact rational-function comparison of the collected summands with the product rule, "
                   "fixed-point-loop shape analysis of the dependence closure, def-use of the differentiation variable, CFG typestate of the sensitivity action"),
     "C11": dict(
-        specs=[S("TAILBOUNDS"), S("KINDCONV"), S("CONVERSIONS"), S("AFTERLOOP", r"cumulant|central|tail_bound|get_all_cumulants"), S("INVINPUTS", r"identifier")],
+        specs=[S("TAILBOUNDS"), S("KINDCONV"), S("CONVERSIONS"), S("AFTERLOOP", r"cumulant|central|tail_bound|get_all_cumulants"), S("INVINPUTS", r"identifier"),
+               S("STATE", r"expansions/|utils/statistics|utils/special_polys|closure::|classmutable|modstate"), S("LRU", r"expansions/|utils/")],
         clause="the raw->cumulant recursion, the raw->central binomial sum and comb(n,k) are the textbook formulas (identities of rational functions over the source expressions, loop ranges included); "
                "Markov bounds are E(M**k)/a**k for every requested order and the lower bound is (m1-a)**2/(m2-2*a*m1+a**2); cumulant / central goals use their own conversion, report the entry of the goal's "
                "order and request the raw moments up to it; their after-loop arms condition on termination and take the limit; goal kinds are stored under their own identifiers. "
@@ -116,7 +117,7 @@ PROPERTIES = {
         clause="CPT rows are written only after the row-sum check, in default->table->entries order with a final completeness check; generated code is in topological "
                "order, numbers values by domain position of their own variable; names are sanitised to grammar atoms. NOT decided: numeric query answers."),
     "C16": dict(
-        specs=[S("NULLSPACE"), S("KAUERS"), S("RATLATTICE"), S("ALIAS"), S("TRIVIAL"), S("NORMDIM")],
+        specs=[S("NULLSPACE"), S("KAUERS"), S("RATLATTICE"), S("ALIAS"), S("TRIVIAL"), S("NORMDIM"), S("QUANT", r"exponent_lattice")],
         clause="the rational kernel is not truncated to integers; the LLL loop returns only what passed the exact membership test. NOT decided: independence, completeness."),
     "C17": dict(
         specs=[S("SETTINGS-W"), S("SETTINGS-C"), S("ROOTS"), S("LOSSY", r"utils/expressions.py"), S("SOLVERFLAG"), S("REBUILD"), S("PARSER", r"_transform_categorical"),
@@ -124,7 +125,7 @@ PROPERTIES = {
         clause="options are written only by the CLI setter and read at call time; settings<->options<->setter census; every root source is complete and approximations clear "
                "the flag; cond2arithm keeps every assignment; categorical expansion keeps index/value/probability aligned. NOT decided: equality of closed forms across settings."),
     "C18": dict(
-        specs=[S("EXCEPT"), S("FALLTHROUGH"), S("REBUILD"), S("COND2ARITHM"), S("VOCAB", r"dispatch|mixing"), S("D2"), S("ABSTRACT"), S("MGF")],
+        specs=[S("EXCEPT"), S("FALLTHROUGH"), S("QUANT"), S("REBUILD"), S("COND2ARITHM"), S("SECTIONTABLES"), S("VOCAB", r"dispatch|mixing"), S("D2"), S("ABSTRACT"), S("MGF")],
         clause="the safety half only (`whatever Polar refuses, it refuses with an error; a refusal never takes the form of a wrong or partial result`): no exception handler swallows an exception "
                "(each re-raises on every path or is a reviewed complete fallback); no function returns a value on some paths and ends without one on others unless its callers test for the missing value; "
                "section rebuilders and cond2arithm raise for what they cannot convert instead of dropping it; dispatchers on operators / function names are total or end in raise; exponentials and mgf uses sit behind raising checks. "
@@ -347,8 +348,11 @@ def main(argv=None):
             res.rule_stats[s.rid] = {"rule": s.rule.id, "instances": len(obs), "floor": s.rule.floor,
                                      "violations_unfiltered": len([o for o in obs if not o.ok]), "doc": s.rule.doc,
                                      "filter": s.include.pattern if s.include else None}
-            if len(obs) < s.rule.floor and not any(o.inconclusive for o in obs):
-                raise AnalysisError(f"rule {s.rid} ({s.rule.id}): {len(obs)} instance(s), floor {s.rule.floor}: anchor vanished or discovery broken")
+            # the floor (instances confirmed by reading) guards against a discovery that silently matches nothing; a tree that
+            # legitimately lost a few instances (a cache dropped, two helpers merged) must not end in an analysis error, so the
+            # run fails only below half of the confirmed count
+            if len(obs) < max(1, s.rule.floor // 2) and not any(o.inconclusive for o in obs):
+                raise AnalysisError(f"rule {s.rid} ({s.rule.id}): {len(obs)} instance(s), floor {s.rule.floor} (enforced at half): anchor vanished or discovery broken")
             base_all |= violation_keys(obs)
             if s.include is not None:
                 obs = [o for o in obs if s.include.search(o.key) or s.include.search(o.file)]
